@@ -26,14 +26,14 @@ const vBase = "zz_generated"
 // ---- behaviour of the harness generators, chosen per (generator, package, type)
 
 const (
-	vActRender   = iota // render a declaration
-	vActNothing         // render nothing, return nil
-	vActSkip            // return ErrSkip (wrapped)
-	vActIgnore          // return ErrIgnore (wrapped), render nothing
-	vActError           // return some other error
-	vActDeferOK         // register a deferred callback that renders
-	vActDeferErr        // register a deferred callback that fails
-	vActBadSyntax       // render text that is not parseable Go
+	vActRender    = iota // render a declaration
+	vActNothing          // render nothing, return nil
+	vActSkip             // return ErrSkip (wrapped)
+	vActIgnore           // return ErrIgnore (wrapped), render nothing
+	vActError            // return some other error
+	vActDeferOK          // register a deferred callback that renders
+	vActDeferErr         // register a deferred callback that fails
+	vActBadSyntax        // render text that is not parseable Go
 	vNumActs
 )
 
@@ -199,28 +199,28 @@ func vNewPkg(fset *token.FileSet, mod *packages.Module, path, name, dir string, 
 	return p
 }
 
-func (p *vPkg) Pkg() *types.Package                   { return p.tpkg }
+func (p *vPkg) Pkg() *types.Package                    { return p.tpkg }
 func (p *vPkg) Imports() map[string]gengotypes.Package { return nil }
-func (p *vPkg) Module() *packages.Module              { return p.mod }
-func (p *vPkg) SourceDir() string                     { return p.dir }
-func (p *vPkg) FileSet() *token.FileSet               { return p.fset }
-func (p *vPkg) Files() []*ast.File                    { return p.files }
-func (p *vPkg) Decl(pos token.Pos) ast.Decl           { return nil }
+func (p *vPkg) Module() *packages.Module               { return p.mod }
+func (p *vPkg) SourceDir() string                      { return p.dir }
+func (p *vPkg) FileSet() *token.FileSet                { return p.fset }
+func (p *vPkg) Files() []*ast.File                     { return p.files }
+func (p *vPkg) Decl(pos token.Pos) ast.Decl            { return nil }
 func (p *vPkg) Doc(pos token.Pos) (map[string][]string, []string) {
 	return p.docs[pos], nil
 }
-func (p *vPkg) Comment(pos token.Pos) []string                         { return nil }
-func (p *vPkg) Eval(expr ast.Expr) (types.TypeAndValue, error)         { return types.TypeAndValue{}, nil }
-func (p *vPkg) Constant(name string) *types.Const                      { return nil }
-func (p *vPkg) Constants() map[string]*types.Const                     { return nil }
-func (p *vPkg) Type(name string) *types.TypeName                       { return p.typeObjs[name] }
-func (p *vPkg) Types() map[string]*types.TypeName                      { return p.typeObjs }
-func (p *vPkg) Function(name string) *types.Func                       { return nil }
-func (p *vPkg) Functions() map[string]*types.Func                      { return nil }
-func (p *vPkg) MethodsOf(n *types.Named, canPtr bool) []*types.Func    { return nil }
+func (p *vPkg) Comment(pos token.Pos) []string                          { return nil }
+func (p *vPkg) Eval(expr ast.Expr) (types.TypeAndValue, error)          { return types.TypeAndValue{}, nil }
+func (p *vPkg) Constant(name string) *types.Const                       { return nil }
+func (p *vPkg) Constants() map[string]*types.Const                      { return nil }
+func (p *vPkg) Type(name string) *types.TypeName                        { return p.typeObjs[name] }
+func (p *vPkg) Types() map[string]*types.TypeName                       { return p.typeObjs }
+func (p *vPkg) Function(name string) *types.Func                        { return nil }
+func (p *vPkg) Functions() map[string]*types.Func                       { return nil }
+func (p *vPkg) MethodsOf(n *types.Named, canPtr bool) []*types.Func     { return nil }
 func (p *vPkg) ResultsOf(tpe *types.Func) (gengotypes.FuncResults, int) { return nil, 0 }
-func (p *vPkg) Position(pos token.Pos) token.Position                  { return p.fset.Position(pos) }
-func (p *vPkg) ObjectOf(id *ast.Ident) types.Object                    { return nil }
+func (p *vPkg) Position(pos token.Pos) token.Position                   { return p.fset.Position(pos) }
+func (p *vPkg) ObjectOf(id *ast.Ident) types.Object                     { return nil }
 
 // ---- a run
 
